@@ -193,6 +193,14 @@ impl Responder {
         let mut carrier = self.carrier.lock().unwrap();
         let tx_index = self.tx_index.lock().unwrap();
 
+        // Breaches are not overwritten once handed to the Responder: if this appointment has been responded already (by
+        // the chain thread or by a request that raced with us up to the carrier lock) the first response stands. Sending a
+        // second, conflicting, penalty would bounce and make the caller delete the appointment along with the live tracker.
+        if let Some(tracker) = self.dbm.lock().unwrap().load_tracker(uuid) {
+            log::info!("Tracker for {uuid} already found in Responder");
+            return tracker.status;
+        }
+
         // Check whether the transaction is in mempool or part of our internal txindex. Send it to our node otherwise.
         let status = if let Some(block_hash) = tx_index.get(&breach.penalty_tx.compute_txid()) {
             ConfirmationStatus::ConfirmedIn(tx_index.get_height(block_hash).unwrap() as u32)
